@@ -208,6 +208,26 @@ theorem finallyK_const (cl : Prog PMsg R R E) :
     finallyK (fun _ : List (Inp R E) => cl) = fun _ => finallyK (fun _ => cl) [] := by
   funext used; rfl
 
+/-- `stage_all` / `unstage_all` when every message is answered with something that is not a
+    Status: exactly one message per device, in order, no `wait` -/
+theorem stageAll_drive_sends (view : RespView R) (cmd : Command) (g : Nat) (c : Bool)
+    (rest : List (Inp R E)) :
+    ∀ (devs : List Dev) (rs : List R), rs.length = devs.length → (∀ r ∈ rs, view.isStatus r = false) →
+      (stageAllProg view cmd g devs false : Prog PMsg R R E).drive c (rs.map .send ++ rest)
+        = Drv.pre (devs.map (devMsg cmd · (some g))) (Drv.done (.ret default) rest) := by
+  intro devs
+  induction devs with
+  | nil => intro rs hl _; cases rs <;> simp_all [stageAllProg, Prog.drive]
+  | cons d ds ih =>
+    intro rs hl hs
+    cases rs with
+    | nil => simp at hl
+    | cons r rs =>
+      have hr : view.isStatus r = false := hs r (by simp)
+      simp only [stageAllProg, List.map_cons, List.cons_append, Prog.drive, hr, Bool.or_false]
+      rw [ih rs (by simpa using hl) (fun x hx => hs x (List.mem_cons_of_mem _ hx))]
+      rfl
+
 /-! ### stage_wrapper, suspend_wrapper, subs_wrapper -/
 
 theorem drive_stageWrapper (view : RespView R) (t : DevTree) (devices : List Dev) (plan : PBeh R E)
